@@ -864,6 +864,38 @@ class Rewriter:
         b = self.map_calls(b, r'(?<![\w.:])ptr::slice_from_raw_parts_mut', lambda m_, a: 'mk_slice(%s)' % ', '.join(a), 'R29:mk-slice')
         return b
 
+
+    # R33: the forked lossy UTF-8 decoder (str/lossy.rs): byte slices are windows of a ghost byte sequence ---------------------------
+    def lossy_rules(self, b):
+        if self.cfg.get('strip_fns'):
+            b = self.strip_nested_fns(b)
+        # a `macro_rules!` defined in the body is expanded at its invocations (definition of macro expansion: no arguments here)
+        mm = mask(b)
+        m = re.search(r'macro_rules!\s*(\w+)\s*\{', mm)
+        if m:
+            o = m.end() - 1
+            c = match_close(mm, o)
+            arm = b[o + 1:c]
+            am = re.match(r'\s*\(\s*\)\s*=>\s*\{(.*)\}\s*;?\s*$', arm, re.S)
+            if not am:
+                raise ExtractError('R33: macro %s is not of the form `() => { .. }`' % m.group(1))
+            body = am.group(1).strip()
+            b = b[:m.start()] + b[c + 1:]
+            b, n = re.subn(r'\b%s!\(\);?' % re.escape(m.group(1)), lambda _m: body, b)
+            self.fired('R33:macro-expansion', n)
+        b = self.sub('R5:unsafe-block', r'\bunsafe\s*\{', '{', b)
+        b = self.sub('R33:const-item', r'\bconst (\w+): u8 = (\d+);', r'let \1: u8 = \2;', b)
+        b = self.sub('R33:deref-get', r'\*xs\.get_unchecked\((\w+)\)', r'xs.get_unchecked(\1)', b)
+        b = self.sub('R33:path', r'\bcore_str::utf8_char_width\(', 'utf8_char_width(', b)
+        b = self.sub('R33:table-read', r'\bUTF8_CHAR_WIDTH\[b as usize\]', 'WIDTH_TABLE_at(b as usize)', b)
+        b = self.sub('R33:from-utf8-unchecked', r'\bstr::from_utf8_unchecked\(&self\.source\[0\.\.(\w+)\]\)', r'str_from_utf8_unchecked(self.source.sub(0, \1))', b)
+        b = self.sub('R33:from-utf8-unchecked', r'\bstr::from_utf8_unchecked\(self\.source\)', 'str_from_utf8_unchecked(self.source)', b)
+        b = self.sub('R33:subslice', r'&self\.source\[([^\]\[]+?)\.\.\]', r'self.source.sub_from(\1)', b)
+        b = self.sub('R33:subslice', r'&self\.source\[([^\]\[]+?)\.\.([^\]\[]+)\]', r'self.source.sub(\1, \2)', b)
+        b = self.sub('R33:empty-slice', r'&\[\]', 'SrcM::empty()', b)
+        b = self.sub('R33:model-type', r'(?<![\w:])Utf8LossyChunk \{', 'ChunkM {', b)
+        return b
+
     # R20: RawVec growth -- the arena seen through its Alloc interface as a ghost "buffer owned" state -----------------
     def rawvecgrow_rules(self, b):
         b = self.sub('R20:use-stmt', r'(?m)^\s*use crate::AllocErr;\s*$', '', b)
@@ -1063,6 +1095,8 @@ class Rewriter:
             b = self.rawvecgrow_rules(b)
         if kind == 'boxops':
             return self.boxops_rules(b)
+        if kind == 'lossy':
+            return self.lossy_rules(b)
         if kind == 'strops':
             b = self.strops_rules(b)
         if kind in ('vecops', 'strops'):
